@@ -164,9 +164,23 @@ def run(ctx):
                     break
             offenders = []
             inlined_sites = {ev[1] for ev in evs if ev[0] in ("inlined", "enter")}
-            for ev in evs[first + 1 : end]:
+            # a handler inside the write phase that does nothing but re-raise what it caught
+            # (`except OSError: raise`): the failure is the write's own and leaves unchanged
+            window = evs[first + 1 : end]
+            passthrough = set()
+            for i, ev in enumerate(window):
+                if ev[0] != "caught":
+                    continue
+                for j in range(i + 1, len(window)):
+                    e2 = window[j]
+                    if e2[0] == "raise" and len(e2) > 3 and e2[3] == "reraise" and e2[2] == ev[2]:
+                        passthrough.update((id(ev), id(e2)))
+                        break
+                    if e2[0] not in HARMLESS_AFTER:
+                        break
+            for ev in window:
                 k = ev[0]
-                if k in HARMLESS_AFTER or ev is wrapped:
+                if k in HARMLESS_AFTER or ev is wrapped or id(ev) in passthrough:
                     continue
                 if fd is not None and k == "call" and ev[2] == "builtin:open" and ev[3] and ev[3][0] == fd:
                     continue  # (a failure to wrap the descriptor is a failure of the write phase itself)
